@@ -256,7 +256,47 @@ def rand_smiles_fragment(rng, charged_p=0.3):
     return rng.choice(gens.AA_SKELETONS + ['C(=O)N', 'CC(=O)OC', 'c1ccsc1', 'C1CCOC1', 'CC#N', 'OP(=O)(O)O', 'CSC', 'NC(N)=O'])
 
 
+# (written before the shared atom, written after it): the atom next to the shared atom is a carbon / the hetero atom itself
+SQ_SUBS = [('C', 'C'), ('O', 'O'), ('N', 'N'), ('Cl', 'Cl'), ('F', 'F'), ('CC', 'CC'), ('OC', 'CO'), ('O=C', 'C=O'), ('S', 'S'),
+           ('NC', 'CN'), ('C#C', 'C#C')]
+
+
+def squash_chain(rng):
+    """one atom shared by three or more fragments that FOLLOW each other in the sequence: the middle fragments
+    carry two `[!]` on the shared atom; the shared atom (C, Si or N+) still needs hydrogens"""
+    el, cap = rng.choice([('C', 4), ('C', 4), ('C', 4), ('[Si]', 4), ('[N+]', 4)])
+    n = rng.randint(3, 5)
+    room = cap - 1 - (1 if rng.random() < 0.7 else 0)      # substituents in total; usually leave a hydrogen
+    subs = []
+    for i in range(n):
+        if room > 0 and rng.random() < 0.75:
+            subs.append(rng.choice(SQ_SUBS))
+            room -= 1
+        else:
+            subs.append(('', ''))
+    lab = rng.choice(['', '', 'a'])
+    bang = '[!%s]' % lab
+    frs = []
+    names = ['A', 'B', 'C', 'D', 'E'][:n]
+    for i, (pre, post) in enumerate(subs):
+        if i == 0:
+            frs.append('#%s=%s%s%s' % (names[i], pre, el, bang))
+        elif i == n - 1:
+            frs.append('#%s=%s%s%s' % (names[i], bang, el, post))
+        else:
+            frs.append('#%s=%s%s(%s)%s' % (names[i], bang, el, bang, post) if post else '#%s=%s%s%s' % (names[i], bang, el, bang))
+    # a tail on the last fragment through an ordinary descriptor, sometimes
+    base = ''.join('[#%s]' % nm for nm in names)
+    if rng.random() < 0.3:
+        frs[-1] = frs[-1] + 'C[$]'
+        frs.append('#T=[$]C%s' % rng.choice(['', 'O', 'N']))
+        base += '[#T]'
+    return '{' + base + '}.{' + ','.join(frs) + '}'
+
+
 def gen_case(rng):
+    if rng.random() < 0.08:
+        return {'kind': 'resolve', 'cls': 'squash-chain', 's': squash_chain(rng), 'legacy': True}
     r = rng.random()
     if r < 0.22:        # ambiguous / surplus descriptors on random base graphs (shared generator)
         names = rng.sample(['A', 'B', 'C', 'D'], rng.randint(1, 3))
@@ -477,6 +517,8 @@ def py_holds_c09(before, final):
 
     def half(d):
         return int(2 * d.get('order', 1))
+    if any(n in final[n] for n in final.nodes):
+        return 7              # an atom is its own neighbour (self-loop): no bond of a molecule
     for n, d in final.nodes(data=True):
         if is_h(d):
             continue
@@ -489,7 +531,7 @@ def py_holds_c09(before, final):
             continue
         if not val:
             continue
-        heavy = [m for m in final[n] if not is_h(final.nodes[m])]
+        heavy = [m for m in final[n] if m != n and not is_h(final.nodes[m])]     # bonds to OTHER heavy atoms
         hs = [m for m in final[n] if is_h(final.nodes[m])]
         b2 = sum(half(final.edges[n, m]) for m in heavy)
         if 2 * max(val + [0]) < b2:
@@ -555,14 +597,17 @@ class C09(common.Prop):
                  3: 'a hydrogen is not bonded to exactly one atom by a single bond',
                  4: 'a completed hydrogen does not carry its anchor\'s fragid / fragname / weight',
                  5: 'an explicitly written hydrogen was lost',
-                 6: 'an explicitly written hydrogen did not keep its own fragid / fragname / weight'}
+                 6: 'an explicitly written hydrogen did not keep its own fragid / fragname / weight',
+                 7: 'an atom is bonded to itself (self-loop in the returned molecule)'}
 
     def corpus(self, ctx):
         out = [{'kind': 'resolve', 'cls': 'corpus', 's': s, 'legacy': True} for s in
                ['{[#A][#B]}.{#A=[$]CC[$],#B=[$]OC}', '{[#A]|4}.{#A=[$]CC[$][$]}', '{[#A][#B]}.{#A=CC[!],#B=[!]CO}',
                 '{[#A][#B]}.{#A=C[$][NH3+],#B=[$]C(=O)[O-]}', '{[#A]=[#B]}.{#A=[$]ccc[$],#B=[$]ccc[$]}',
                 '{[#A][#H]}.{#A=CC[$],#H=[$][H]}', '{[#A]1[#A][#A]1}.{#A=[$]cc[$]}',
-                '{[#A]=[#B]}.{#A=[$]c1ccc2c(c1)[$],#B=[$]cccc2[$]}']]
+                '{[#A]=[#B]}.{#A=[$]c1ccc2c(c1)[$],#B=[$]cccc2[$]}',
+                '{[#A][#B][#C]}.{#A=CC[!],#B=[!]C([!])O,#C=[!]CN}', '{[#A][#B][#C]}.{#A=OC[!],#B=[!]C[!],#C=[!]CN}',
+                '{[#A][#B][#C][#D]}.{#A=CC[!],#B=[!]C[!],#C=[!]C([!])C,#D=[!]CCl}']]
         out.append({'kind': 'sample', 'cls': 'corpus', 's': '{#A=[$]CC[$],#B=[$]C(C)C[$]}', 'react': {'$': 1.0},
                     'seed': 1, 'w': 60})
         out += [{'kind': 'resolve', 'cls': 'corpus', 's': s, 'legacy': True} for s in ZERO_WEIGHT[:5]]
